@@ -382,6 +382,41 @@ impl<G: AffineRepr> InnerProductProof<G> {
     }
 }
 
+/// Verification-only constructors and accessors (guarded, add-only).
+#[cfg(feature = "verif-hooks")]
+impl<G: AffineRepr> InnerProductProof<G> {
+    /// Assemble a proof object from arbitrary parts.
+    pub fn verif_from_parts(
+        L_vec: Vec<G>,
+        R_vec: Vec<G>,
+        a: G::ScalarField,
+        b: G::ScalarField,
+    ) -> Self {
+        InnerProductProof { L_vec, R_vec, a, b }
+    }
+
+    /// Expose the parts of a proof object.
+    pub fn verif_parts(&self) -> (&[G], &[G], G::ScalarField, G::ScalarField) {
+        (&self.L_vec, &self.R_vec, self.a, self.b)
+    }
+
+    /// Public entry to the crate-private `verification_scalars`.
+    pub fn verif_verification_scalars(
+        &self,
+        n: usize,
+        transcript: &mut Transcript,
+    ) -> Result<
+        (
+            Vec<G::ScalarField>,
+            Vec<G::ScalarField>,
+            Vec<G::ScalarField>,
+        ),
+        ProofError,
+    > {
+        self.verification_scalars(n, transcript)
+    }
+}
+
 /// Computes an inner product of two vectors
 /// \\[
 ///    {\langle {\mathbf{a}}, {\mathbf{b}} \rangle} = \sum\_{i=0}^{n-1} a\_i \cdot b\_i.
